@@ -24,13 +24,21 @@ Contribution(rec) ==
         LET k == Unflat(sc.proj, q - 1)
         IN  QProdSeq([j \in 1..D |-> QHyp(2 * rec[j][1], rec[j][2], M[j], k[j])])]
 
+(* For outputs of tens of thousands of cells the spectrum is not materialised as exact rationals: a scenario marked   *)
+(* `factored' keeps, per counted record, the one-axis rows whose outer product is its contribution (the law that the *)
+(* contribution separates this way is checked on materialised scenarios by SeparatesIntoRows).                        *)
+Factored == "factored" \in DOMAIN sc /\ sc.factored
+Row(rec, j) == [k \in 1..(M[j] + 1) |-> QHyp(2 * rec[j][1], rec[j][2], M[j], k - 1)]
+
 Init == /\ sc \in Scenarios /\ i = 0 /\ skipped = 0
-        /\ scs = [q \in 1..Elements(sc.proj) |-> QZero]
+        /\ scs = IF Factored THEN <<>> ELSE [q \in 1..Elements(sc.proj) |-> QZero]
 
 ApplyRecord ==
     /\ i < Len(sc.recs)
     /\ LET rec == sc.recs[i + 1] IN
-       IF Covered(rec)
+       IF Covered(rec) /\ Factored
+       THEN UNCHANGED <<scs, skipped>>
+       ELSE IF Covered(rec)
        THEN LET c == TLCEval(Contribution(rec)) IN
             /\ scs' = TLCEval([q \in 1..Len(scs) |-> QAdd(scs[q], c[q])])
             /\ UNCHANGED skipped
@@ -43,10 +51,31 @@ Spec == Init /\ [][Next]_vars
 
 WellFormed == \A r \in 1..Len(sc.recs) : \A j \in 1..D :
                  sc.recs[r][j][1] <= sc.pops[j] /\ sc.recs[r][j][2] <= 2 * sc.recs[r][j][1]
-Conservation == QAdd(QSumSeq(scs), QI(skipped)) = QI(i)
+Conservation == ~Factored => QAdd(QSumSeq(scs), QI(skipped)) = QI(i)
 NonNegative == \A q \in 1..Len(scs) : ~QLt(scs[q], QZero)
+
+(* every one-axis row of a counted record is a probability distribution (so every outer product has mass one) *)
+RowsAreDistributions ==
+    (Factored /\ i > 0 /\ Covered(sc.recs[i])) =>
+        \A j \in 1..D : LET row == TLCEval(Row(sc.recs[i], j))
+                         IN  QSumSeq(row) = QOne /\ \A k \in 1..Len(row) : ~QLt(row[k], QZero)
+(* on materialised scenarios: the contribution IS the outer product of those rows *)
+SeparatesIntoRows ==
+    (~Factored /\ i > 0 /\ Covered(sc.recs[i]) /\ Elements(sc.proj) <= 2000) =>
+        LET rec == sc.recs[i]
+            rows == [j \in 1..D |-> TLCEval(Row(rec, j))]
+            c == Contribution(rec)
+        IN  \A q \in 1..Elements(sc.proj) :
+                LET k == Unflat(sc.proj, q - 1) IN c[q] = QProdSeq([j \in 1..D |-> rows[j][k[j] + 1]])
 
 Emit == (i = Len(sc.recs)) =>
     PrintT("REPLAY " \o ToJson([family |-> "createlarge", pops |-> sc.pops, proj |-> sc.proj, recs |-> sc.recs,
-                                skipped |-> skipped, scs |-> [q \in 1..Len(scs) |-> QSci(scs[q], 25)]]))
+                                skipped |-> skipped, factored |-> Factored,
+                                rows |-> IF Factored
+                                         THEN [r \in 1..Len(sc.recs) |->
+                                                 IF Covered(sc.recs[r])
+                                                 THEN [j \in 1..D |-> [k \in 1..(M[j] + 1) |-> QSci(Row(sc.recs[r], j)[k], 25)]]
+                                                 ELSE <<>>]
+                                         ELSE <<>>,
+                                scs |-> [q \in 1..Len(scs) |-> QSci(scs[q], 25)]]))
 =============================================================================
